@@ -18,7 +18,8 @@ CFG = dict(
     reason_text={"1": "the real client's observation differs from every outcome of the Gallina model (Model/Client.v, all orders of internal rules)",
                  "2": "at the final quiescent point, with both wires drained, a call is still blocked, or a unary call (the probe, an RPC in flight) did not get its answer / its context's error",
                  "3": "the run wedged: a goroutine waits for a mutex for ever (watchdog: quiescent-with-lock-waiters)",
-                 "4": "a registry lock is held at the final quiescent point (a read loop is parked inside its critical section)"},
+                 "4": "a registry lock is held at the final quiescent point (a read loop is parked inside its critical section)",
+                 "5": "Serve has returned although no transport fault was injected: the connection was given up (every RPC in flight and later is lost)"},
     rule="end-to-end lock-step in synctest bubbles + watchdog for mutex waiters: 3 stream kinds x handlers returning after k of n client messages, "
          "r of them arrived before the return (all 0 <= k <= r <= n, k < n <= 4; thorough n <= 8) x 0..2 other RPCs in flight (gated unary, idle "
          "bidi stream) x probe unary call afterwards with and without deadline; callers abandoning with m = 0..4 (8) responses unread by "
@@ -28,7 +29,8 @@ CFG = dict(
          "blocks and fails at its own 30 s deadline), reads and later Writes work: cancel / deadline / abort on undecodable metadata x 0..3 unread x "
          "2..5 further envelopes for the dead stream (bodies, trailer) x probe, against a scripted peer and end to end (handler never learns, keeps "
          "sending) x others; the trailer in the server writer's hands with the transport Write held up (server-side back-pressure) x cancel / deadline "
-         "reaching the server x release x probe; the reply of a unary call BEHIND 3..6 (10) unread responses of a stream whose caller cancels while the "
+         "reaching the server x release x probe; the same with a MESSAGE (not the trailer) of the stream in the writer's hands (0..1 further SendMsg "
+         "parked behind it; the Endpoint's blocked Write returns the error of the context it was given) x others x probe, Serve still serving; the reply of a unary call BEHIND 3..6 (10) unread responses of a stream whose caller cancels while the "
          "client's Writes are blocked for good: after the virtual clock has passed the reset Write's 30 s bound (30.001 s / 31 s / 1 h) the call completes; "
          "caller contexts of every kind (see C07); judged: client half against Model/Client.v, at the final quiescent point every call has returned, every unary "
          "call got its answer (or its context's error), no registry lock is held; a wedge (probe pending / watchdog) is a failing input",
